@@ -106,6 +106,13 @@ def delay_plans(case, dry, mod, tier, rng):
     # in the forked children (C18: a failing reopen must not leave the child on the inherited descriptor)
     for role, qn, rel in pe.worker_sites(tuple(getattr(mod, "FAULT_QUALNAMES", ()))):
         plans.append([["worker*", qn, rel, 1, "raise_os", 24]])
+    if case.get("long_delay"):
+        # delays longer than any plausible internal timeout (a worker that is descheduled / swapped out for more than a second),
+        # at the k-th execution of every statement of the worker loops, in all workers at once; nothing else for this base
+        plans = [[["worker*", qn, rel, o, "sleep", case["long_delay"]]]
+                 for role, qn, rel in pe.worker_sites(tuple(getattr(mod, "WORKER_QUALNAMES", ("BaseFunctorWorker.run",))))
+                 for o in range(1, case.get("long_delay_occ", 4) + 1)]
+        return plans, len(sites)
     if case.get("sweep_only"):
         # a slow base case: only the statements of the named functions are delayed
         plans = [p for p in plans if p[0][1] in case["sweep_only"]]
@@ -140,7 +147,7 @@ def run_shard(mod, spec):
         case["instr_hooks"] = list(mod.INSTR_HOT) + list(getattr(mod, "INSTR_AUTO", ()))
     scratch = common.scratch_dir("vf-pool-")
     fc_site = _flow_control_site()
-    t_end = time.time() + getattr(mod, "SHARD_BUDGET_S", {"quick": 100, "thorough": 1500})[tier]
+    t_end = time.time() + max(getattr(mod, "SHARD_BUDGET_S", {"quick": 100, "thorough": 1500})[tier], case.get("budget_s", 0))
     per_mech = {}
 
     def evaluate(c, r, label):
